@@ -76,6 +76,7 @@ type Frame struct {
 	newReach   *Term
 	recovered  *Term // value recover() yields inside this activation (deferred call during panicking)
 	renumbered bool
+	loopPre    map[*loopInfo]*State // state on entry to each loop (before the havoc), for idx() of counting loops
 	inferred   map[*loopInfo]*LoopSpec // invariants inferred for unannotated element-copy loops
 	callPos    token.Pos // position of the call this activation was inlined at
 	loopOwner  *Frame    // the frame whose contract annotates this frame's loops (itself, or an ancestor for a contract-less helper)
@@ -694,6 +695,10 @@ func (fr *Frame) loopSpec(li *loopInfo) *LoopSpec {
 func (ex *Exec) enterLoop(fr *Frame, li *loopInfo, states []*State, conds []Term) (*State, Term) {
 	h := li.header
 	pre := ex.merge(states, conds)
+	if fr.loopPre == nil {
+		fr.loopPre = map[*loopInfo]*State{}
+	}
+	fr.loopPre[li] = pre
 	reach := ex.nameReach(fr, h, Or(conds...))
 	ls := fr.loopSpec(li)
 	if ls == nil {
